@@ -334,7 +334,7 @@ func (c *Ctx) Finish(start time.Time, level string, findings []Finding) int {
 			"samples":             samples,
 			"explanation":         expl,
 			"checker_cmd":         fmt.Sprintf("/verif/bin/ledgerlint check --property %s --tier %s", c.Property, c.Tier),
-			"trusted_base":        c.Trusted,
+			"trusted_base":        append([]string{"go/packages + go/types + go/cfg (x/tools v0.50.0)", "ledgerlint's SQL lexer/parser/catalog fold"}, c.Trusted...),
 			"per_rule":            rules,
 			"analysed":            c.Stats,
 			"known_findings":      res.KnownLines,
